@@ -180,6 +180,8 @@ pub struct RunLog {
     pub hostile: bool,
     /// index of the first step of the benign continuation
     pub epilogue_from: Option<usize>,
+    /// first step of the part of the benign continuation that stays on the live connection
+    pub stay_from: Option<usize>,
     pub epilogue_polls_max: usize,
 }
 
@@ -806,6 +808,17 @@ impl<'d> Exec<'d> {
                         BrokerAct::Send(p) => w.send_now(cidx, p),
                         BrokerAct::SendRaw(b) => w.send_raw(cidx, b),
                         BrokerAct::Close => w.conns[cidx].close_after_drain = true,
+                        BrokerAct::Behave => {
+                            w.wake_delay_us = 0;
+                            w.timer_latency_us = 0;
+                            let c = &mut w.conns[cidx];
+                            c.faults.clear();
+                            c.gates.clear();
+                            c.wgates.clear();
+                            c.policy = IoPolicy::default();
+                            c.broker = BrokerPolicy::default();
+                            w.release_held(usize::MAX, Order::Fifo);
+                        }
                         BrokerAct::Policy(p) => w.conns[cidx].broker = p,
                         BrokerAct::WakeDelay(us) => w.wake_delay_us = us,
                         BrokerAct::TimerLatency(us) => w.timer_latency_us = us,
